@@ -6,6 +6,7 @@ import (
 	"fmt"
 	"go/constant"
 	"go/types"
+	"golang.org/x/tools/go/ssa"
 	"strings"
 )
 
@@ -189,6 +190,22 @@ func (e *Env) lookupPkgObj(pkg *types.Package, name string) (Val, bool) {
 	}
 	if c, ok := o.(*types.Const); ok {
 		return e.constToVal(c.Val(), c.Type()), true
+	}
+	if v, ok := o.(*types.Var); ok && e.fc != nil {
+		// a package-level variable: its value in the state the expression is evaluated in
+		if sp := e.g.ld.prog.Package(pkg); sp != nil {
+			if gl, ok := sp.Members[name].(*ssa.Global); ok {
+				if c, ok := e.g.ld.constGlobal(gl); ok {
+					return Val{t: e.fc.constVal(c).t, ty: v.Type()}, true
+				}
+				addr := e.fc.term(gl)
+				saved := e.fc.cur
+				e.fc.cur = e.state
+				t := e.fc.loadWhole(addr.t, v.Type())
+				e.fc.cur = saved
+				return Val{t: t, ty: v.Type()}, true
+			}
+		}
 	}
 	return Val{}, false
 }
